@@ -30,6 +30,8 @@ type t = {
   mutable all_events : event list;           (* every I/O event of the scenario so far, in order (reversed) *)
 }
 
+(* pieces of the open batch were flushed by a Put that then failed (bputsyncfail): Commit owes the finished-record *)
+let flushed_pieces = ref false
 let empty_disk : disk = { k_data = []; k_hint = None; k_merge = None }
 let default_cfg : cfg = { c_fsize = n_of_int 1024; c_sync = N0; c_bps = N0; c_io = N0 }
 
@@ -543,6 +545,7 @@ let exec (s : t) (verbose : bool) (f : string array) (obs : string option) : str
     let (d, evs) = db_sync (get_db s) in
     s.db <- Some d; "ok" ^ events_str evs
   | "batch" ->
+    flushed_pieces := false;
     (* the batch id is chosen by the implementation (snowflake): an input of the model *)
     let id = match obs with Some o -> obs_head o | None -> "1" in
     s.batch <- Some (new_batch (f.(2) = "1") (n_of_string id)); id
@@ -564,6 +567,18 @@ let exec (s : t) (verbose : bool) (f : string array) (obs : string option) : str
       step (batch_delete (get_db s) (get_batch s) k)
     done;
     (match !err with None -> "ok" | Some e -> "err " ^ eerr_name e) ^ events_str !all
+  | "bputsyncfail" ->
+    let o = match obs with Some o -> obs_head o | None -> "ok" in
+    if String.length o >= 6 && String.sub o 0 6 = "err io" then
+      let had = (get_batch s).b_staged <> [] in   (* a flush of nothing leaves nothing that a finished-record would owe *)
+      (match batch_put_sync_refused (get_db s) (get_batch s) (tok_bytes f.(2)) (tok_bytes f.(3)) with
+       | Some ((d, b), _) -> s.db <- Some d; s.batch <- Some b; if had then flushed_pieces := true; "err io"
+       | None -> "ok # the model sees no flush due")
+    else begin
+      let (((d, b), e), _) = batch_put (get_db s) (get_batch s) (tok_bytes f.(2)) (tok_bytes f.(3)) in
+      s.db <- Some d; s.batch <- Some b;
+      (match e with None -> "ok" | Some e -> "err " ^ eerr_name e)
+    end
   | "bputfail" ->
     (* a Batch.Put during which the operating system refuses the first write (the write of an overflow flush).  Whether a
        write happened at all is observed; when it did, the model must agree that a flush was due *)
@@ -615,7 +630,11 @@ let exec (s : t) (verbose : bool) (f : string array) (obs : string option) : str
      | _ ->
        s.batch <- Some (batch_refuse (get_batch s)); "err io")
   | "commit" ->
-    let (((d, b), e), evs) = batch_commit (get_db s) (get_batch s) in
+    let b0 = get_batch s in
+    let (((d, b), e), evs) =
+      if !flushed_pieces && b0.b_staged = [] && not b0.b_committed then batch_commit_flushed (get_db s) b0
+      else batch_commit (get_db s) b0 in
+    flushed_pieces := false;
     s.db <- Some d; s.batch <- Some b;
     (match e with None -> "ok" | Some e -> "err " ^ eerr_name e) ^ events_str evs
   | "merge" | "mergebusy" | "mergeget" ->
